@@ -27,13 +27,13 @@ def run(c):
               "sketch operands with different skipDegree; distinct by op-sequence hash")
     c.assumptions += [
         "float64 arithmetic is modelled exactly (Int) inside the exact domain only: integer values, counters that are multiples of 1/4; rounding outside it is not decided",
-        "ChUnique is modelled twice: as a set (SH.Model.Unique, Part 3 theorems) and as the concrete open-addressing table (SH.Model.UniqueTable: buf, place, probing with wrap-around, both rehash loops, the resize relocation loop). Every replayed op is run on both; the table model must reproduce the real table slot by slot (B lines: layout digest, full buf up to 64 slots, and the well-formedness flag). Part 4 proves that every table op commutes with the abstraction and that insertImpl keeps the table well-formed; that rehash/resize re-establish reachability is NOT proved (checked by the executable wfb, proved equivalent to WF, on every replayed op, and on the real table by the oracle unique-item-unreachable)",
+        "ChUnique is modelled twice: as a set (SH.Model.Unique, Part 3 theorems) and as the concrete open-addressing table (SH.Model.UniqueTable: buf, place, probing with wrap-around, both rehash loops, the resize relocation loop). Every replayed op is run on both; the table model must reproduce the real table slot by slot (B lines: layout digest, full buf up to 64 slots, and the well-formedness flag). Parts 4/6 prove that every table op commutes with the abstraction, that insertImpl keeps and rehash (both loops) and resize (real loop bound) restore well-formedness, so WF is an invariant of insertHash incl. thinning and growth, and that insert programs on the real table realise the canonical sketch; Merge/MergeRead at table level are covered step-wise only (and by the executable wfb = WF on every replayed op, and on the real table by the oracle unique-item-unreachable)",
         "rng.Uint64n(totalWeight) is an input of each model step (theorems hold for every draw); the harness predicts it on a copy of the rng and checks the real code consumed exactly that draw",
         "wire images handed to UmMarshall/MergeRead/ReadFrom are produced by the real MarshallAppend (no malformed sketches); ValueTDigest/percentiles are not modelled",
         "Size(false) is a fixed function of (itemsCount, skipDegree); the theorems are about that pair",
     ]
     binary = gen(c)
-    c.prove("SH.Props.C04", extra_files=["SH/Model/Agg.lean", "SH/Model/Unique.lean", "SH/Model/UniqueTable.lean", "SH/Lemmas/UniqueTrie.lean", "SH/Lemmas/UniqueTable.lean"])
+    c.prove("SH.Props.C04", extra_files=["SH/Model/Agg.lean", "SH/Model/Unique.lean", "SH/Model/UniqueTable.lean", "SH/Lemmas/UniqueTrie.lean", "SH/Lemmas/UniqueTable.lean", "SH/Lemmas/UniqueTableWF.lean"])
     drv = c.driver(DRIVER)
     if binary and drv:
         # three streams (the label is the harness -mode, so that `bin/check C04 --replay f` regenerates the same case)
@@ -62,16 +62,19 @@ META = {
              "the host of a leaf with positive count; AddValueCounterHost and ApplyUnique are merges with one leaf; (2) the same for API rows (tsValues.merge); (3) for the sketch, "
              "every program of inserts, Merge and MergeRead-over-the-wire ends in the canonical state of the set of inserted hashes (least skipDegree that fits, the values divisible "
              "by it), for arbitrary size limit; decide-witnesses show the pre-fix Merge/MergeRead violate this; (4) the concrete open-addressing table (buf, probing with wrap-around, "
-             "rehash with both loops, resize with its relocation loop) refines the set model: insertImpl commutes with the abstraction and keeps the table well-formed (every stored "
-             "value reachable from its home slot, stored once, itemsCount = occupied slots), lookups in a well-formed table are complete, rehash/resize/shrinkIfNeed/one insertHash "
-             "step commute with the abstraction on values and counters; the executable wfb is proved equivalent to the invariant. The models are tied to /repo by replaying every "
-             "generated op on the real objects and on the compiled models, comparing value fields, sketch contents and the table layout slot by slot."),
+             "rehash with both loops, resize with its relocation loop) refines the set model: every table op commutes with the abstraction; the invariant WF (every stored "
+             "value reachable from its home slot without crossing an empty slot, stored once, itemsCount = occupied slots) is kept by insertImpl and RESTORED by rehash (the pass "
+             "over the table plus 'process the first collision chain again') and by resize with the real bound `i < oldSize || buf[i] != 0`, hence invariant across insertHash incl. "
+             "thinning and growth; for every stream of inserts from the empty table the real table is well-formed, its abstraction equals the set model and canonical_sketch holds "
+             "for it (table_refines); the executable wfb is proved equivalent to WF. The models are tied to /repo by replaying every generated op on the real objects and on the "
+             "compiled models, comparing value fields, sketch contents and the table layout slot by slot."),
     "note": ("Trusted: Lean kernel, the model<->code correspondence on generated programs (incl. sketches above 2^16 values), exact-domain float arithmetic. "
-             "PARTIAL (Part 4, table_refines): it is not proved that rehash and resize re-establish reachability of every stored value (the two 'process the first collision chain "
-             "again' loops and the `i < oldSize || buf[i] != 0` bound), so WF is an invariant only across insertImpl; instead wfb (= WF, proved) is evaluated by the driver after every "
-             "replayed op and the real table is probed for every stored value (oracle unique-item-unreachable). A decide counter-example shows that with the resize loop shortened to "
-             "`i < oldSize` (seeded C03-2) all value-level theorems still hold but a wrapped value is stranded and the next insert of it is counted twice. "
-             "The theorems of Part 3 are about the code after fixes/C04-chunique-merge.diff (/repo e786491b). Not decided: IEEE rounding outside the exact domain; ApplyUnique rescaling "
-             "is modelled only where the division is exact (count = number of hashes, or 1/2/4 hashes with an integer count); t-digest is not modelled."),
+             "Hypotheses of the table theorems, maintained by the code: one free slot for rehash/resize (itemsCount <= maxFill = half the table before every insert), new size >= 2x old "
+             "size for resize, table size >= 4 (initial degree 4). STILL PARTIAL: the program-level table_refines is proved for insert programs; Merge and MarshallAppend+MergeRead at "
+             "table level are covered step-wise (their loops are folds of the proved insertHash step, preceded by the proved rehash/resize) but not assembled into one program theorem; "
+             "for them wfb (= WF, proved) is evaluated by the driver after every replayed op and the real table is probed for every stored value (oracle unique-item-unreachable). "
+             "A decide counter-example shows that with the resize loop shortened to `i < oldSize` (seeded C03-2) all value-level theorems still hold but a wrapped value is stranded and "
+             "the next insert of it is counted twice. The theorems of Part 3 are about the code after fixes/C04-chunique-merge.diff (/repo e786491b). Not decided: IEEE rounding outside "
+             "the exact domain; ApplyUnique rescaling is modelled only where the division is exact; t-digest is not modelled."),
     "design_ref": "DESIGN.md §6 C04",
 }
